@@ -61,7 +61,7 @@ Definition due (s : state) : option Z :=
   end.
 
 (** one admission whose stamp is [tr]: TimerFire (if still sleeping), Handover, Rec, Compute *)
-Definition admit (s : state) (tr : Z) : option state :=
+Definition admit_one (s : state) (tr : Z) : option state :=
   let s1 := settle s tr in
   match ph s1 with
   | Offering =>
@@ -80,7 +80,7 @@ Definition stamp_of (s : state) (o : op) : Z :=
 Definition replay_op (s : state) (o : op) : state * bool :=
   let admitted (s : state) (tr : Z) (lo hi : Z) : state * bool :=
     (* the stamp must not precede the call nor the offer, and must not be absurdly late *)
-    match due s, admit s tr with
+    match due s, admit_one s tr with
     | Some u, Some s' => (s', (lo <=? tr) && (u <=? tr) && (tr <=? Z.max hi u + late) && snap_eq s' o)
     | _, _ => (s, false)
     end in
@@ -137,7 +137,7 @@ Definition replay_op (s : state) (o : op) : state * bool :=
         match stamps with
         | [] => (s, ok)
         | tr :: r =>
-            match due s, admit s tr with
+            match due s, admit_one s tr with
             | Some u, Some s' => go r s' (ok && (tc o <=? tr) && (u <=? tr) && (tr <=? Z.max (tc o) u + late))
             | _, _ => (s, false)
             end
